@@ -158,6 +158,9 @@ def engine_argv(binpath, r, prop, outfile, workers, deadline):
             "--bmax", str(r["bmax"]), "--depth", str(r["depth"]), "--junk", str(r["junk"]), "--base", str(r["base"]),
             "--arena1", str(r["arena1"]), "--workers", str(workers), "--deadline", str(deadline), "--out", outfile,
             "--tmpdir", os.path.join(C.OUT, "tmp"), "--max-states", str(r["max_states"])]
+    tags = sorted(set(k["sig"].rsplit("@", 1)[1] for k in C.load_known()[0] if "@" in k["sig"] and "*" not in k["sig"].rsplit("@", 1)[1]))
+    if tags:
+        argv += ["--prune-tags", ",".join(tags)]
     if r["faults"]:
         argv += ["--faults", str(r["faults"])]
     if r["fixed"]:
@@ -217,6 +220,7 @@ def collect(prop, tier, runs, t0, deadline_s):
         cov["terminal_checks"] += d["terminal_checks"]
         cov["fault_runs"] += d["fault_runs"]
         cov["foreign_seen"] += d["foreign_seen"]
+        cov["pruned_behind_known_findings"] = cov.get("pruned_behind_known_findings", 0) + d.get("known_pruned", 0)
         cov["crashes"] += d["crashes"]
         distinct_obs += d["distinct_observations"]
         all_fix = all_fix and d["fixpoint"]
